@@ -3,6 +3,7 @@
 sub-agent that seeds defects (it gets the property text and a scratch worktree, nothing from /verif)."""
 import json, sys
 pid, wt = sys.argv[1:3]
+round2 = len(sys.argv) > 3 and sys.argv[3] == "r2"
 p = {json.loads(l)["id"]: json.loads(l) for l in open("/verif/properties.jsonl")}[pid]
 txt = '''You are helping test a verification tool by writing *seeded defects* for an open-source Go project (sassoftware/relic, a package-signing tool and server). You work ONLY inside your own scratch git worktree at {wt} (a checkout of the project). Do not read or write anything under /verif or /repo, and do not look for any verification tooling: your changes must be independent of it.
 
@@ -32,5 +33,8 @@ Environment: no network. Every shell call must start with: export GOFLAGS=-mod=m
 Go 1.23 is installed; module deps are in the module cache. Do not `go get` anything. Do not run `git commit`. Do not create large files.
 
 Finish by replying with a short summary: for each change, one line saying which file/function it touches and what it needs to manifest.'''.format(wt=wt, title=p["title"], statement=p["statement"], quant=p["quantifier"]["text"], why=p["why_tests_cant"], files=", ".join(p["anchors"]["files"]))
-open("/tmp/prompt-%s.txt" % pid, "w").write(txt)
-print("/tmp/prompt-%s.txt" % pid)
+if round2:
+    txt = txt.replace("Your job: produce THREE", "This is a second round of testing: earlier testers mostly weakened the most obvious guard in the property's central function. Prefer less obvious sites this time: helpers and their contracts, callers, alternative or rarely taken code paths, configuration handling, error paths, sibling implementations of the same mechanism in other packages.\n\nYour job: produce THREE")
+suffix = "-r2" if round2 else ""
+open("/tmp/prompt-%s%s.txt" % (pid, suffix), "w").write(txt)
+print("/tmp/prompt-%s%s.txt" % (pid, suffix))
